@@ -6,9 +6,21 @@
 #include <strings.h>
 #endif
 #include <stdlib.h>
+#include <limits.h>
 
 
 #include <stdio.h>
+
+//Decimal value of the digit run at s, saturating at UINT_MAX
+static unsigned rtosc_read_number(const char *s)
+{
+    unsigned val = 0;
+    while(isdigit(*s)) {
+        unsigned digit = *s++ - '0';
+        val = val > (UINT_MAX - digit)/10 ? UINT_MAX : val*10 + digit;
+    }
+    return val;
+}
 
 static bool rtosc_match_number(const char **pattern, const char **msg)
 {
@@ -17,8 +29,8 @@ static bool rtosc_match_number(const char **pattern, const char **msg)
         return false;
 
     //Read in both numeric values
-    unsigned max = atoi(*pattern);
-    unsigned val = atoi(*msg);
+    unsigned max = rtosc_read_number(*pattern);
+    unsigned val = rtosc_read_number(*msg);
 
     ////Advance pointers
     while(isdigit(**pattern))++*pattern;
